@@ -202,3 +202,8 @@ func vmSettings(p []byte) []Setting {
 	}
 	return out
 }
+
+// The package's tests switch on DebugGoroutines (every serveG.check() then parses
+// a stack trace to find the goroutine id, 75% of the run time); the simulation
+// runs with it off.
+func init() { disableDebugGoroutines.Store(true) }
